@@ -359,12 +359,19 @@ def execute(scen):
         # the method set contains an invalid method (before and/or after the target)
         valid_sets = [without(before, offender)]
         refs = [ref_outcomes(spec, s, corpus, key) for s in valid_sets]
-        # if the offender is not yet in "before" (invalid_rebuild) nothing else changes
+        # "fail again with a configuration error", measured differentially: what a brand-new function
+        # holding the same (invalid) method set raises on its first call
+        with_off = without(before, offender) + [[offender, None]]
+        cfg_ref = ref_outcomes(spec, with_off, corpus, key)
+
+        def is_config(p, i):
+            if p[0] != "err" or p[1] or is_dispatch_verdict(p):
+                return False
+            return p[2][0] == "config" or (cfg_ref[i][0] == "err" and not cfg_ref[i][1]
+                                           and p[2] == cfg_ref[i][2])
+
         for i, (c, p) in enumerate(zip(corpus, probes)):
-            ok = any(p == r[i] for r in refs)
-            if not ok and p[0] == "err" and not p[1] and not is_dispatch_verdict(p) \
-                    and p[2][0] in ("config",):
-                ok = True
+            ok = any(p == r[i] for r in refs) or is_config(p, i)
             if not ok:
                 violation = viol("after-invalid-build: probe is neither a configuration error "
                                  "nor the complete-set behaviour",
@@ -393,8 +400,7 @@ def execute(scen):
             probes = h.probes(corpus)
             ref = ref_outcomes(spec, s1, corpus, key)
             for i, (p, rf) in enumerate(zip(probes, ref)):
-                ok = p == rf or (p[0] == "err" and not p[1] and not is_dispatch_verdict(p)
-                                 and p[2][0] == "config")
+                ok = p == rf or is_config(p, i)
                 if not ok:
                     violation = viol("after-invalid-build: after a further registration the function serves "
                                      "a table that lacks a registered method",
